@@ -134,6 +134,8 @@ def plan(tier, seed):
         out.append({'kind': 'failed-stop', 'seed': seed, 'idx': i})
     for i in range(24 if tier == 'quick' else 240):
         out.append({'kind': 'on-demand', 'seed': seed, 'idx': i})
+    for i in range(18 if tier == 'quick' else 180):
+        out.append({'kind': 'reloadconfig-overlap', 'seed': seed, 'idx': i})
     return out
 
 
@@ -253,6 +255,9 @@ def run_case(spec):
         return res
     if spec.get('kind') == 'on-demand':
         on_demand(spec, res)
+        return res
+    if spec.get('kind') == 'reloadconfig-overlap':
+        reloadconfig_overlap(spec, res)
         return res
     if 'B' in spec:                     # concrete (replay)
         h = spec['h']
@@ -682,6 +687,73 @@ def long_gap(spec, res):
     finally:
         w.close()
     res.sample = {'case': 'same operation twice, long gap', 'op': op, 'gap_s': round(gap, 1)}
+
+
+def reloadconfig_overlap(spec, res):
+    """reloadconfig is one operation until everything it does is done -- also the graceful stop of a watcher that
+    disappeared from (or changed in) the file, whose workers sit out the grace period: a request arriving meanwhile is
+    refused"""
+    import os
+    import shutil
+    import tempfile
+    rnd = rng_for(spec['seed'], 'C10-reloadconfig-overlap', spec['idx'])
+    d = tempfile.mkdtemp(prefix='verif-c10-')
+    path = os.path.join(d, 'circus.ini')
+    edit = ['remove', 'option', 'fewer'][spec['idx'] % 3]
+    bname, (bcmd, bprops) = [('incr-p', ('incr', {'name': 'p', 'nb': 1, 'waiting': True})),
+                             ('stop-p', ('stop', {'name': 'p', 'waiting': True})),
+                             ('restart-p', ('restart', {'name': 'p', 'waiting': True}))][(spec['idx'] // 3) % 3]
+    delay = [0.1, 0.4, 0.8][(spec['idx'] // 9) % 3]
+
+    def render(with_a, a_opts):
+        t = '[circus]\ncheck_delay = -1\nendpoint = ipc:///sim/ctrl\npubsub_endpoint = ipc:///sim/pub\n\n'
+        if with_a:
+            t += '[watcher:a]\ncmd = w_a\ngraceful_timeout = 1.5\n%s\n' % a_opts
+        return t + '[watcher:p]\ncmd = w_p\nnumprocesses = 1\ngraceful_timeout = 0.2\n\n'
+    open(path, 'w').write(render(True, 'numprocesses = 2\n'))
+    w = simhist.new_world({})
+    w.confs['w_a'] = {'beh': [{'15': ['ignore']}]}           # sits out the whole grace period
+    w.nest = {'n': 0, 'max': 0, 'entered': 0, 'overlaps': [], 'open': [], 'tokens': [], 'work': [], 'orphans': []}
+    nv = len(res.viol)
+
+    @gen.coroutine
+    def go():
+        arb = w.load_arbiter(path)
+        yield arb.start()
+        yield w.settle(60)
+        old = set(w.kernel.live('w_a'))
+        open(path, 'w').write(render(edit != 'remove', {'remove': '', 'option': 'numprocesses = 2\nmax_retry = 9\n',
+                                                        'fewer': 'numprocesses = 1\n'}[edit]))
+        m1 = w.req('reloadconfig', waiting=rnd.random() < .5)
+        yield w.advance(delay)
+        slot = w.arb._exclusive_running_command
+        dying = sorted(old & set(w.kernel.live('w_a')))
+        rb = yield w.call(bcmd, **dict(bprops))
+        yield w.settle(120)
+        if w.stalled is not None:
+            res.obs['stalled(C05 owns)'] += 1
+            return
+        res.obs['requests_during_a_reloadconfig'] += 1
+        res.obs['reloadconfig:%s' % ('slot-held' if slot else 'slot-free')] += 1
+        accepted = (rb or {}).get('status') == 'ok'
+        if accepted and slot is None and dying and edit != 'fewer' or w.nest['orphans']:
+            res.violation('C10/second-operation-accepted-while-reloadconfig-still-stops-a-watcher:' + edit,
+                          'reloadconfig (edit: %s of watcher a) had given the slot back %.1fs after it was sent although the '
+                          'workers %s of the old a were still inside their grace period; %s was accepted beside it; '
+                          'monitor: %s' % (edit, delay, dying, bname, w.nest['orphans'][:1]))
+        res.nontrivial(repr(('reloadconfig-overlap', edit, bname, delay, bool(slot), accepted)))
+        pr = yield w.call('incr', name='p', nb=0, waiting=True)
+        res.obs['wedge_probes'] += 1
+        if pr is None or (pr.get('status') == 'error' and 'already running' in str(pr.get('reason'))):
+            res.violation('C10/wedged-after:reloadconfig[%s]' % edit, 'probe answered %s' % str(pr)[:120])
+    try:
+        w.run(go)
+        for v in res.viol[nv:]:
+            v['spec'] = dict(spec)
+    finally:
+        w.close()
+        shutil.rmtree(d, ignore_errors=True)
+    res.sample = res.sample or {'case': 'reloadconfig (%s) then %s %.1fs later' % (edit, bname, delay)}
 
 
 def circus_section(spec, res):
